@@ -167,7 +167,7 @@ func opSequence(c *Ctx, sh *shared, dir string, sc scenario) {
 		remote = fmt.Sprintf("(Some (%s, %s))", HxS(e.target), HxS("emit"))
 		types, wtype = "[]", HxS("remote")
 	}
-	scTerm := fmt.Sprintf("(mkSc 1 %s %s false %s %s [] true 4242 %s)", wtype, remote, HxS("RUNIT001"), HxS("input\n"), types)
+	scTerm := fmt.Sprintf("(mkSc 1 %s %s false %s %s [] true 4242 %s true)", wtype, remote, HxS("RUNIT001"), HxS("input\n"), types)
 	ts := make([]string, len(tags))
 	for i, t := range tags {
 		ts[i] = fmt.Sprint(t)
